@@ -155,6 +155,45 @@ def element_correspondence(ctx, rep, R):
         raise MechanismMissing(R, "fewer than 3 attribute element accesses found in the ndindex loop of _expand_vectors")
 
 
+@SPEC.rule(
+    "R18.5",
+    "expanded => substituted: on every path on which _expand_vectors replaces a variable by its scalar elements (the elements are "
+    "added to the group's new list), the old symbol and its replacement are appended to the (symbols, values) pair that is later "
+    "substituted into equations, initial equations, delay arguments and metadata — unconditionally: an array that occurs in no "
+    "equation can still occur in another variable's attribute or in a delay argument",
+)
+def r18_5(ctx, rep):
+    from ..cfg import CFG
+    R = "R18.5"
+    fn = ctx.func(MODEL, "Model._expand_vectors", R)
+    subs = substitutions(fn.body)
+    eq = [s_ for s_ in subs if s_["store"] == "equations"]
+    if not eq:
+        raise MechanismMissing(R, "substitution of self.equations not found in _expand_vectors")
+    syms, vals = eq[0]["symbols"], eq[0]["values"]
+    cfg = CFG(fn, R)
+    # the element list of one variable: a local bound to [] to which Variable(...) objects are appended, and which extends the group's list
+    ext = [x for x in cfg.stmts() if isinstance(x.ast, ast.Expr) and isinstance(x.ast.value, ast.Call) and isinstance(x.ast.value.func, ast.Attribute)
+           and x.ast.value.func.attr == "extend" and x.ast.value.args and isinstance(x.ast.value.args[0], ast.Name)]
+    n = 0
+    for e in ext:
+        elems = e.ast.value.args[0].id
+        starts = [x for x in cfg.stmts() if isinstance(x.ast, ast.Assign) and is_name(x.ast.targets[0], elems) and isinstance(x.ast.value, ast.List) and not x.ast.value.elts]
+        if not starts:
+            continue
+        n += 1
+        for what, lst in (("old symbol recorded", syms), ("replacement recorded", vals)):
+            apps = {x.id for x in cfg.stmts() if any(isinstance(c.func, ast.Attribute) and c.func.attr == "append" and is_name(c.func.value, lst) for c in calls(x.ast))}
+            w = None
+            for s0 in starts:
+                w = w or (cfg.path(s0.id, e.id, avoid=apps) if apps else [s0, e])
+            rep.ob(R, SITE, "%s for every expanded variable" % what, bool(apps) and w is None,
+                   "a variable can be replaced by its elements without `%s.append(...)`: its old symbol then survives in attributes of other variables "
+                   "and in delay arguments, which refer to a variable that no longer exists" % lst, path=cfg.describe(w) if w else "")
+    if n < 1:
+        raise MechanismMissing(R, "per-variable element list (bound to [] and extended into the group's list) not found")
+
+
 # -- seeded variants ---------------------------------------------------------
 from ._mut import replace_in_func  # noqa: E402
 
